@@ -20,7 +20,7 @@ impl Scenario for C20S {
         }
     }
     fn rule(&self) -> &'static str {
-        "case = 1..32 receivers converted with to_stream from 1..8 threads, 0..50 messages per channel queued before the conversion and more sent afterwards (with virtual delays), senders dropped or held or living in sim-processes that die at the k-th system call of their last send, consumers using futures::executor::block_on or polling by hand with a counting waker and parking, some streams dropped early; EINTR / short batches in the routing thread's wait; seeded schedule; non-trivial = >=2 streams and (messages queued before conversion or >=2 converting threads); distinct = distinct (workload, schedule hash)"
+        "case = 1..32 receivers converted with to_stream from 1..8 threads, 0..50 messages per channel queued before the conversion and more sent afterwards (with virtual delays; one unfocused case in ten: a backlog of 100..272 tiny messages on one channel whose senders are all gone before the conversion), senders dropped or held or living in sim-processes that die at the k-th system call of their last send, consumers using futures::executor::block_on or polling by hand with a counting waker and parking, some streams dropped early; EINTR / short batches in the routing thread's wait; seeded schedule; non-trivial = >=2 streams and (messages queued before conversion or >=2 converting threads); distinct = distinct (workload, schedule hash)"
     }
     fn gen(&self, seed: u64, idx: u64, _tier: Tier, _variant: &str) -> Value {
         let mut r = Rng::stream(seed, idx.wrapping_mul(2654435761).wrapping_add(0xC20));
@@ -67,6 +67,19 @@ impl Scenario for C20S {
                 })
                 .collect();
             return json!({"sim": sim, "streams": streams, "threads": 2, "prepared": r.chance(2, 3)});
+        }
+        let mut streams = streams;
+        if r.chance(1, 10) {
+            // backlog stream: hundreds of tiny messages queued and every sender gone before the
+            // conversion - one wake-up of the routing thread has to drain them all and see the closure
+            let k = r.below(n) as usize;
+            streams[k]["backlog"] = json!(r.range(100, 272));
+            streams[k]["post"] = json!(0);
+            streams[k]["hold"] = json!(false);
+            streams[k]["proc"] = json!(false);
+            streams[k]["big"] = json!(false);
+            streams[k]["drop_after"] = Value::Null;
+            sim["sndbuf"] = Value::Null;
         }
         json!({"sim": sim, "streams": streams, "threads": nthreads})
     }
@@ -164,14 +177,16 @@ mod imp {
                 for (route, s, ready) in plan {
                     let was_ready = ready.is_some();
                     let (tx, rx) = ready.unwrap_or_else(|| ipc::channel::<Vec<u8>>().unwrap());
-                    let pre = if was_ready { 0 } else { s["pre"].as_u64().unwrap_or(0).min(60) };
+                    let backlog = if was_ready { 0 } else { s["backlog"].as_u64().unwrap_or(0).min(300) };
+                    let pre = if was_ready { 0 } else if backlog > 0 { backlog } else { s["pre"].as_u64().unwrap_or(0).min(60) };
+                    let mut tx = Some(tx);
                     let post = s["post"].as_u64().unwrap_or(0).min(20);
                     let len = if s["big"].as_bool().unwrap_or(false) { 9000 } else { 40 };
                     let gap = s["gap_us"].as_u64().unwrap_or(0).min(100_000);
                     let hold = s["hold"].as_bool().unwrap_or(false);
                     // messages queued before the conversion (a helper thread: a large backlog may block)
                     if !was_ready {
-                        let tx2 = tx.clone();
+                        let tx2 = tx.as_ref().unwrap().clone();
                         let h = sim::spawn(&format!("presender{}", route), None, move || {
                             send_some(&tx2, route, 0, pre, len, 0);
                             hist::log("drop.inv", route as i64, 0, 0, "");
@@ -180,6 +195,13 @@ mod imp {
                         });
                         if pre <= 4 && len < 1000 {
                             let _ = h.join();
+                        }
+                        if backlog > 0 {
+                            // every sender is gone and the helper done (or stuck) before the conversion
+                            hist::log("drop.inv", route as i64, 0, 0, "");
+                            drop(tx.take());
+                            hist::log("drop.ret", route as i64, 0, 0, "");
+                            sim::sleep_ns(50_000_000);
                         }
                     }
                     hist::log("to_stream.inv", route as i64, 0, 0, "");
@@ -208,10 +230,12 @@ mod imp {
                             hist::log("drop.ret", route as i64, 0, 0, "");
                         }
                     };
-                    if as_proc {
-                        super::super::util::spawn_process(&format!("sender{}", route), 8 + route, tx, body);
-                    } else {
-                        sim::spawn(&format!("sender{}", route), None, move || body(tx));
+                    if let Some(tx) = tx.take() {
+                        if as_proc {
+                            super::super::util::spawn_process(&format!("sender{}", route), 8 + route, tx, body);
+                        } else {
+                            sim::spawn(&format!("sender{}", route), None, move || body(tx));
+                        }
                     }
                     let manual = s["consumer"].as_str() == Some("manual");
                     let drop_after = s["drop_after"].as_u64();
@@ -340,6 +364,16 @@ mod imp {
             out.viol(&hist::panic_sig(pn), format!("panic in [{}]: {} at {}", pn.label, pn.msg, pn.loc));
         }
         out.nontrivial = specs.len() >= 2 && (any_pre || nthreads >= 2);
+        for (i, sp) in specs.iter().enumerate() {
+            if sp["backlog"].as_u64().unwrap_or(0) > 0 && !prepared {
+                let route = i as i64 + 1;
+                let at = evs.iter().find(|e| e.op == "to_stream.inv" && e.a == route).map(|e| e.seq).unwrap_or(u64::MAX);
+                let q = evs.iter().filter(|e| e.op == "send.ok" && e.a == route && e.seq < at).count() as u64;
+                let gone = evs.iter().filter(|e| e.op == "drop.ret" && e.a == route && e.seq < at).count() >= 2;
+                out.probe("backlog_over_128_all_senders_gone_before_conversion", (q > 128 && gone) as u64);
+                out.probe("backlog_over_256_all_senders_gone_before_conversion", (q > 256 && gone) as u64);
+            }
+        }
         out.probe("streams", specs.len() as u64);
         out.probe("yielded", evs.iter().filter(|e| e.op == "yield").count() as u64);
         out.probe("ended", evs.iter().filter(|e| e.op == "end").count() as u64);
